@@ -15,3 +15,33 @@ Theorem C01_enc_layer_transparent :
 Proof. exact enc_reader_refines. Qed.
 
 Print Assumptions C01_enc_layer_transparent.
+
+(* the encryption-layer WRITER produces the canonical wire format whatever the piece sizes
+   (empty pieces, pieces across several chunks, total length 0 = one empty chunk with its tag,
+   exact multiples of CHUNK = no extra empty chunk): if the writer succeeds at all, ... *)
+From MLA Require Import EncWriter EncWriterProofs.
+Theorem C01_enc_writer_canonical :
+  forall CHUNK CIPHERBUF, 0 < CHUNK -> forall ks tagc fuel pieces s,
+    ew_archive CHUNK CIPHERBUF ks tagc fuel pieces = Ok s ->
+    ew_out s = enc_format CHUNK ks tagc (concat pieces).
+Proof. exact enc_writer_canonical. Qed.
+(* ... and it does succeed below 2^32 - 1 chunks *)
+Theorem C01_enc_writer_total :
+  forall CHUNK CIPHERBUF, 0 < CHUNK -> forall ks tagc fuel pieces,
+    0 < CIPHERBUF -> len (concat pieces) / CHUNK + 1 < 2 ^ 32 ->
+    (forall b, In b pieces -> (N.to_nat (len b) < fuel)%nat) ->
+    exists s, ew_archive CHUNK CIPHERBUF ks tagc fuel pieces = Ok s /\
+              ew_out s = enc_format CHUNK ks tagc (concat pieces).
+Proof. exact enc_writer_total. Qed.
+
+Example C01_enc_writer_example :
+  let run := fun pieces => match ew_archive 64 24 toy_ks (toy_tag 16) 300 pieces with Ok s => ew_out s | _ => [] end in
+  let data := map (fun i => N.of_nat i mod 256) (seq 3 128) in
+  run [] = enc_format 64 toy_ks (toy_tag 16) [] /\ len (run []) = 16 /\
+  run [[]; takeN 5 data; []; dropN 5 data] = enc_format 64 toy_ks (toy_tag 16) data /\
+  len (run [data]) = 128 + 2 * 16 /\
+  len (run [data; [1]]) = 129 + 3 * 16.
+Proof. vm_compute. repeat split; reflexivity. Qed.
+
+Print Assumptions C01_enc_writer_canonical.
+Print Assumptions C01_enc_writer_total.
